@@ -35,8 +35,8 @@ META = {
         "bar 0 has no previous close: only 0 <= fee <= volume x rate x own/(pool+own) is demanded there",
         "resampled bars: close = last close, volume = sum of the minute volumes, pool liquidity = last minute's value",
         "own liquidity is read from Position.liquidity right before update(); bar data come from the raw generated rows",
-        "a position with zero liquidity in a bar whose pool liquidity is zero has an undefined share (0/0): an "
-        "exception there is classified, not reported",
+        "a position with zero liquidity earns nothing, also in a bar whose pool liquidity is zero (share 0/0 is read as 0; "
+        "update() must not raise there)",
         "operations rejected by the market are only classified (C04's subject)",
     ],
 }
@@ -346,9 +346,6 @@ def install(watch, strategy, mon, case_info):
         own_total = sum(v[0] for v in pre.values())
         if err is not None:
             watch.dead = True
-            if B["liq"] + own_total == 0 and any(v[0] == 0 for v in pre.values()):
-                mon.cls("undefined-share-0/0-raised")
-                return
             mon.violation(
                 "uniswap", "update", "raises", f"{Dr.reject_site(err)}:{type(err).__name__}",
                 f"{watch.name} bar {k}: update() raised {err!r}; tick dtype {watch.P['dtype']}, closes "
